@@ -59,8 +59,13 @@ class OpenQLCircuitFactoryManager(IOpenQLCircuitFactory):
     # endregion
 
     # region Interface Methods
-    def construct(self, circuit: Union[IDeclarativeCircuit, ICircuitCompositeOperation], circuit_id: Optional[str] = None) -> ql.Program:
-        """:return: OpenQL circuit based on operation type."""
+    def construct(self, circuit: Union[IDeclarativeCircuit, ICircuitCompositeOperation], circuit_id: Optional[str] = None, kernel_id: Optional[str] = None) -> ql.Program:
+        """
+        :param circuit: (Sub-)circuit to be converted.
+        :param circuit_id: (Optional) program name, defaults to name generated from circuit content.
+        :param kernel_id: (Optional) kernel (base) name, used to keep kernel names of nested sub-programs unique.
+        :return: OpenQL circuit based on operation type.
+        """
 
         process_circuit: ICircuitCompositeOperation = circuit
         if isinstance(circuit, IDeclarativeCircuit):
@@ -72,30 +77,54 @@ class OpenQLCircuitFactoryManager(IOpenQLCircuitFactory):
         kernel_uuid: str = f"kernel_{circuit_uuid[:8]}"
         if circuit_id is not None:
             program_uuid = circuit_id
-        sub_program_uuid: str = f"sub_{program_uuid}"
+        if kernel_id is not None:
+            kernel_uuid = kernel_id
 
         result_program: ql.Program = PlatformManager.construct_program(name=program_uuid)
         kernel: ql.Kernel = PlatformManager.construct_kernel(name=kernel_uuid)
+        nr_kernel_operations: int = 0  # Number of operations exported to the current kernel
+        nr_program_entries: int = 0  # Number of kernels and sub-programs added to the program so far
+        nr_sub_programs: int = 0  # Number of sub-programs constructed so far
 
         for operation_node in process_circuit._circuit_graph.get_node_iterator():
             operation: ICircuitOperation = operation_node.operation
 
             # Recursion, if operation is a composite operation
             if isinstance(operation, ICircuitCompositeOperation):
-                inner_program: ql.Program = self.construct(operation, circuit_id=sub_program_uuid)
-                # TODO: deal with repetitions
-                for i in range(operation.nr_of_repetitions):
+                # Close the kernel filled so far, such that the sub-program is executed after the operations
+                # listed before it and before the operations listed after it.
+                if nr_kernel_operations > 0:
+                    result_program.add_kernel(kernel)
+                    nr_program_entries += 1
+                    kernel = PlatformManager.construct_kernel(name=f"{kernel_uuid}_{nr_program_entries}")
+                    nr_kernel_operations = 0
+                # Program and kernel names are derived from the position of the sub-circuit (kernel names are required to be unique)
+                inner_program: ql.Program = self.construct(
+                    operation,
+                    circuit_id=f"sub{nr_sub_programs}_{program_uuid}",
+                    kernel_id=f"{kernel_uuid}_sub{nr_sub_programs}",
+                )
+                nr_sub_programs += 1
+                nr_repetitions: int = operation.nr_of_repetitions
+                if nr_repetitions == 1:
                     result_program.add_program(inner_program)
+                    nr_program_entries += 1
+                elif nr_repetitions > 1:
+                    result_program.add_for(inner_program, nr_repetitions)
+                    nr_program_entries += 1
 
             # Guard clause, if request not supported raise exception
             operation_supported: bool = self.contains(factory_key=type(operation))
             if not operation_supported:
                 continue  # TODO: Maybe provide warning for skipped operation.
-            
+
             # Extend kernel
             kernel = self.factory_lookup[type(operation)].construct(operation, kernel)
+            nr_kernel_operations += 1
 
-        result_program.add_kernel(kernel)
+        # Add the last kernel (an empty kernel is only added if the program would otherwise be empty)
+        if nr_kernel_operations > 0 or nr_program_entries == 0:
+            result_program.add_kernel(kernel)
         return result_program
 
     def contains(self, factory_key: Type[ICircuitOperation]) -> bool:
